@@ -23,7 +23,7 @@ typedef struct { void* p; size_t n; } vh_ent;
 static vh_ent vh_live[VH_MAXLIVE];
 static int vh_nlive;
 static volatile int vh_on;
-static long vh_count, vh_fail_at, vh_failed, vh_frees, vh_overflow;
+static long vh_count, vh_fail_at, vh_fail_from, vh_failed, vh_frees, vh_overflow;
 static unsigned char* vh_snap;      /* sequence of records: u64 size, bytes */
 static size_t vh_snap_cap, vh_snap_len;
 
@@ -77,7 +77,7 @@ void* __wrap_malloc(size_t n)
 {
 	void* p;
 	if (!vh_on) return __real_malloc(n);
-	if (++vh_count == vh_fail_at) { ++vh_failed; return 0; }
+	if (++vh_count == vh_fail_at || (vh_fail_from && vh_count >= vh_fail_from)) { ++vh_failed; return 0; }
 	p = vh_arena ? vh_arena_alloc(n) : __real_malloc(n);
 	if (p) vh_track(p, n);
 	return p;
@@ -93,7 +93,7 @@ void* __wrap_realloc(void* p, size_t n)
 	void* q;
 	long i;
 	if (!vh_on) return __real_realloc(p, n);
-	if (++vh_count == vh_fail_at) { ++vh_failed; return 0; }
+	if (++vh_count == vh_fail_at || (vh_fail_from && vh_count >= vh_fail_from)) { ++vh_failed; return 0; }
 	/* always move: allocate, copy, snapshot+free the old block (realloc that moves is the worst case) */
 	q = vh_arena ? vh_arena_alloc(n) : __real_malloc(n);
 	if (!q) return 0;
@@ -114,10 +114,13 @@ void* __wrap_realloc(void* p, size_t n)
 /* start monitoring; fail_at = 0: never fail, else fail exactly the fail_at-th allocation point */
 void vh_mon_start(long fail_at, unsigned char* snapbuf, size_t snapcap)
 {
-	vh_nlive = 0; vh_count = 0; vh_fail_at = fail_at; vh_failed = 0; vh_frees = 0; vh_overflow = 0;
+	vh_nlive = 0; vh_count = 0; vh_fail_at = fail_at; vh_fail_from = 0; vh_failed = 0; vh_frees = 0; vh_overflow = 0;
 	vh_snap = snapbuf; vh_snap_cap = snapcap; vh_snap_len = 0;
 	vh_on = 1;
 }
+/* after vh_mon_start(0, ..): every allocation point from the from-th on fails (memory stays exhausted: clean-up code that allocates,
+   a second attempt after the first failure) */
+void vh_mon_sticky(long from) { vh_fail_from = from; }
 /* out[0]=allocation points, [1]=live blocks, [2]=failed, [3]=frees, [4]=snap_len, [5]=overflow, [6]=live bytes */
 void vh_mon_stop(long out[8])
 {
